@@ -671,6 +671,31 @@ def cases(rng, tier):
     out.append({'kind': 'scalar-leaf', 'op': 'accumulating 0-d leaf', 'dt': 'f32', 'gdt': 'f32', 'nout': 1, 'zero_d': True,
                 'lines': [gen_dag.leaf_line((), [0.75], True, 'f32'), 't op mean 0 all 0', f't bw 0 _ {one} f32', 't gdtype 0', f't bw 0 _ {one} f32', 't gdtype 0',
                           f't bw 1 _ {one} f32', 't gdtype 0', 't gdtype 1']})
+    # corpus: a RETAINED non-leaf gradient of a float32 tensor whose consumers send it float64 contributions (mean over a dim divides by a
+    # NumPy integer; an upstream gradient of the other dtype): the buffer keeps the tensor's dtype and shape — with retain_grad() marks and
+    # inside a retain_grads block, both dtypes
+    g6 = show_floats([1.0, -2.0, 0.5]); g23 = show_floats([1.0, 2.0, 3.0, -1.0, -2.0, 0.5])
+    for dt in ('f32', 'f64'):
+        odt = 'f64' if dt == 'f32' else 'f32'
+        for how in ('mark', 'block'):
+            lines = [gen_dag.leaf_line((2, 3), [1., 2, 3, 4, 5, 6], True, dt), gen_dag.leaf_line((2, 3), [.5, -1, 2, 1, 3, -2], True, dt)]
+            if how == 'block': lines += ['t ctx new rg', 't ctx enter 0']
+            lines += ['t op mul 0,1', 't op mean 2 i:0 0', 't op neg 2', 't op sum 4 all 0']
+            if how == 'mark': lines += ['t retain 2', 't retain 4']
+            lines += [f't bw 3 3 {g6} {odt}', 't gdtype 2', 't gdtype 0', f't bw 5 _ {show_floats([2.0])} {dt}', 't gdtype 2', 't gdtype 4', 't gdtype 0', 't gdtype 1']
+            if how == 'block': lines += ['t ctx exit 0']
+            out.append({'kind': 'hist', 'op': 'retained non-leaf gradient', 'dt': dt, 'gdt': 'mixed', 'nout': 1, 'zero_d': True, 'lines': lines})
+    # corpus: ONE Python constant met first by a float64 tensor and then by a float32 tensor (and the other way round), through every operator
+    # spelling that wraps a scalar (x * c, c - x, -x, x / c): a scalar operand takes the dtype of the tensor it meets, each time
+    for first, second in (('f64', 'f32'), ('f32', 'f64')):
+        for k, c0 in enumerate((2.5, 3.0, -1.0, 7.25)):
+            lines = [gen_dag.leaf_line((2,), [1.5, 2.5], True, first), gen_dag.leaf_line((2,), [0.5, 4.0], True, second)]
+            nt = 2; res = []
+            for leaf in (0, 1):
+                for kind in ('mul', 'sub', 'div', 'add'):
+                    lines.append(f't sop {kind} {leaf} s{fbits(c0)}'); nt += 2; res.append(nt - 1)
+            for r in res: lines.append(f't dtype {r}')
+            out.append({'kind': 'sop', 'op': 'mixed-constant', 'dt': second, 'gdt': second, 'lines': lines, 'nout': 1, 'zero_d': False})
     for c in out:
         c['desc'] = ' ; '.join(c['lines'])[:500]
     _SAFE['pending'] = [c['lines'] for c in out if c['kind'].startswith('boundary')]
